@@ -1,0 +1,11 @@
+//go:build verif
+
+package media
+
+// Contracts for the verification machinery in /verif (comment-only; build tag verif).
+
+// C16: ghost count of URL-to-file-id look-ups (one per attachment URL that is being linked).
+//@ ghost var idLookups int
+//@ func (h Handler) GetIdFromUrl(url string) (id types.Uid)
+//@   modifies idLookups
+//@   ensures idLookups == old(idLookups) + 1
